@@ -22,7 +22,7 @@ BASE_UNWINDSET = ("assemble_instr.0:16,assemble_const.0:9,assemble_imm.0:9,"
                   "assemble_mem_const.0:5,asm_build_index_tables.0:330,"
                   "asm_build_index_tables.1:40,str_to_instr_key.0:330,"
                   "str_to_instr_key.1:8,get_opd_format.0:40,check_registers.0:4,"
-                  "all_opd_str_to_reg.0:4,all_opd_str_to_reg.1:4,nop_padding.0:12")
+                  "all_opd_str_to_reg.0:4,all_opd_str_to_reg.1:4,nop_padding.0:12,nop_padding.1:12")
 
 SAFETY = ["--bounds-check", "--pointer-check", "--div-by-zero-check",
           "--signed-overflow-check", "--undefined-shift-check",
@@ -58,6 +58,7 @@ class Lemma:
     functions: list = field(default_factory=list)   # real functions whose bodies are verified here
     expect_fail_prefix: str = "VACUITY"             # obligations that MUST fail (reachability)
     solver: list = field(default_factory=lambda: ["--sat-solver", "cadical"])
+    slice: bool = True              # --slice-formula (cone of influence per obligation)
 
 
 @dataclass
@@ -141,10 +142,21 @@ def run_lemma(l, known):
             return Result(l, "error", detail="goto-instrument failed: " + (err + out)[-1500:], log=log, seconds=time.time() - t0)
         binary = b
     us = BASE_UNWINDSET + ("," + l.unwindset if l.unwindset else "")
+    # DFCC renames an enforced function f to f_wrapped_for_contract_checking: name its loops too
+    extra_us = []
+    for e in l.enforce + l.enforce_rec:
+        fn = e.split("/")[0]
+        for ent in us.split(","):
+            if ent.startswith(fn + "."):
+                extra_us.append(ent.replace(fn + ".", fn + "_wrapped_for_contract_checking.", 1))
+    if extra_us:
+        us += "," + ",".join(extra_us)
     cb = ["cbmc", binary, "--json-ui", "--trace", "--unwinding-assertions",
           "--unwind", str(l.unwind), "--unwindset", us] + l.solver
     if l.safety:
         cb += SAFETY
+    if l.slice:
+        cb += ["--slice-formula"]
     if l.object_bits:
         cb += ["--object-bits", str(l.object_bits)]
     cb += l.extra
@@ -206,7 +218,7 @@ def run_lemma(l, known):
                                "ghosts": trace_ghosts(r.get("trace", []), l.ghosts),
                                "trace_tail": trace_tail(r.get("trace", []))})
     res.sentinels = sentinels_ok
-    if sentinels_bad:
+    if sentinels_bad and not res.failed:
         res.status = "error"
         res.detail = "vacuity: reachability sentinel not reachable: " + "; ".join(sentinels_bad)
         return res
